@@ -1359,7 +1359,7 @@ fn handle_stuck_or_dead(o: &Opts, run: u64, dead: bool) -> i32 {
         }
         println!("violation: run {run}: event {step} of this history (or an observer after it) {} ({} of the run's {} events kept)", if dead { "killed the process" } else { "did not return within the watchdog limit" }, case.events.len(), full.events.len());
         for (n, e) in case.events.iter().enumerate() {
-            println!("  [{n}] {}", e.text());
+            println!("  [{n}] {}{}", e.text(), px_note(case.qt, e));
         }
     }
     println!("VIOLATION property={} replay={}", o.prop, path);
@@ -1475,7 +1475,7 @@ fn cmd_run(o: &Opts) -> i32 {
             f.step
         );
         for (n, e) in case.events.iter().enumerate() {
-            println!("  [{n}] {}", e.text());
+            println!("  [{n}] {}{}", e.text(), px_note(case.qt, e));
         }
         println!("  expected: {}", f.expected);
         println!("  observed: {}", f.observed);
@@ -1693,4 +1693,18 @@ fn main() {
         }
     };
     std::process::exit(code);
+}
+
+/// report-only annotation: which events of a Q32E2 history went through the generic-width
+/// `PxE2<N>` operand spellings (a pure function of the operands, see `sut::px_width`)
+fn px_note(qt: posit_ref::QT, e: &events::Ev) -> String {
+    let w = match e {
+        events::Ev::Acc(a) => sut::px_width(qt, &a.ops),
+        events::Ev::Load(p, _) => sut::px_width(qt, &[*p]),
+        _ => None,
+    };
+    match w {
+        Some(n) => format!("    (operands passed as PxE2<{n}>)"),
+        None => String::new(),
+    }
 }
